@@ -24,6 +24,7 @@ Fixpoint utree_eqb (a b : utree) : bool :=
 Definition result_eqb (a b : result) : bool :=
   match a, b with
   | RErr, RErr => true
+  | RUnlinked, RUnlinked => true
   | RNil, RNil => true
   | ROk x, ROk y => utree_eqb x y
   | _, _ => false
@@ -45,33 +46,40 @@ Inductive obs :=
 Inductive c10case :=
 | C10Case (k : N) (g : graph) (calls : list (list name)) (sched : list N) (trace : list N) (res : list (list obs)).
 
-Definition obs_ok (k : nat) (g : graph) (n : name) (m : result) (o : obs) : bool :=
+Definition obs_ok (d : disc) (k : nat) (g : graph) (n : name) (m : result) (o : obs) : bool :=
   match o with
   | ORes r _ => result_eqb m r
   | OCall cls solo_cls same =>
-      if result_eqb m (result_solo k g n) then same && N.eqb cls solo_cls
+      if result_eqb m (result_solo k g n) then
+        N.eqb cls solo_cls &&
+        match m, d with
+        | RErr, Unguarded => true   (* without the lock the TEXT of a build error (the path to the failing
+                                       field) depends on what other threads have registered meanwhile,
+                                       which the model does not track; the class is still compared *)
+        | _, _ => same
+        end
       else match m with
-           | RErr => negb same && N.eqb cls 1    (* NewRoot got an error where alone it gets a schema *)
+           | RErr | RUnlinked => negb same && N.eqb cls 1    (* NewRoot got another error, or an error where alone it gets a schema *)
            | RNil => negb same && negb (N.eqb cls 0)
            | ROk _ => true      (* a schema with an unlinked part: depends on the message *)
            end
   end.
 
-Fixpoint obs_list_ok (k : nat) (g : graph) (ns : list name) (ms : list result) (os : list obs) : bool :=
+Fixpoint obs_list_ok (d : disc) (k : nat) (g : graph) (ns : list name) (ms : list result) (os : list obs) : bool :=
   match ms, os with
   | [], [] => true
   | m :: mr, o :: or =>
       match ns with
-      | n :: nr => obs_ok k g n m o && obs_list_ok k g nr mr or
+      | n :: nr => obs_ok d k g n m o && obs_list_ok d k g nr mr or
       | [] => false
       end
   | _, _ => false
   end.
 
-Fixpoint threads_ok (k : nat) (g : graph) (calls : list (list name)) (ms : list (list result)) (os : list (list obs)) : bool :=
+Fixpoint threads_ok (d : disc) (k : nat) (g : graph) (calls : list (list name)) (ms : list (list result)) (os : list (list obs)) : bool :=
   match calls, ms, os with
   | [], [], [] => true
-  | c :: cr, m :: mr, o :: or => obs_list_ok k g c m o && threads_ok k g cr mr or
+  | c :: cr, m :: mr, o :: or => obs_list_ok d k g c m o && threads_ok d k g cr mr or
   | _, _, _ => false
   end.
 
@@ -120,7 +128,7 @@ Definition c10_check_with (d : disc) (c : c10case) : bool :=
          first-come-first-served hand-off policy over the machine of Conc.v *)
       let (st, tr) := hrun_trace fifo_grant d k' g calls sch in
       let rs := rets d k' g calls (expand fifo_grant d k' g sch (init calls)) in
-      nlist_eqb tr trace && threads_ok k' g calls (results st) res &&
+      nlist_eqb tr trace && threads_ok d k' g calls (results st) res &&
       ids_consistent (all_id_pairs 0 rs (results st) res)
   end.
 
